@@ -220,14 +220,52 @@ def run(prog, rep, tier):
                                         e3 = expr_of(c, a3) if a3.place is not None else ('?',)
                                         if '&mut' in aty3 and e3[0] == 'ref' and e3[1][0] == 1 and place_fields(e3[1]):
                                             written[place_fields(e3[1])[0]].append(b.idx)
+        def fast_path_ok(obb):
+            """an Ok result that skips the rewrite is tolerated only on a path that established (i) equality between a value computed from the
+            requested position and a position field of self, and (ii) a second test on another position field (validity of the cached state)"""
+            ident = False
+            valid = False
+            for (e, taken, d) in census.guards_on_path(prog, body, obb):
+                neg = False
+                while e[0] == 'not':
+                    e = e[1]
+                    neg = not neg
+                if e[0] != 'binop' or e[1] not in ('Eq', 'Ne') or d not in arm_blocks:
+                    continue
+                holds_eq = (e[1] == 'Eq') == (taken != neg)
+                sides = []
+                for x in (e[2], e[3]):
+                    fl = None
+                    while x[0] == 'cast':
+                        x = x[1]
+                    if x[0] == 'place' and x[1][0] == 1 and place_fields(x[1]):
+                        fl = place_fields(x[1])[0]
+                    elif x[0] == 'call' and x[2].args and x[2].args[0].place is not None:
+                        oo = origins(body, [x[2].args[0].place[0]], through_calls=True)
+                        fs = [ff[1] for ff in oo.fields if ff[0] == 'self' and len(ff) > 1]
+                        fl = fs[0] if fs else None
+                    sides.append(fl)
+                fields_here = [x for x in sides if x in spec['position']]
+                if not fields_here:
+                    continue
+                def _uc(x):
+                    while x[0] == 'cast':
+                        x = x[1]
+                    return x
+                other = [_uc(x) for x, fl in zip((e[2], e[3]), sides) if fl not in spec['position']]
+                if holds_eq and other and other[0][0] != 'const':
+                    ident = ident or fields_here[0]
+                elif (not holds_eq) and other and other[0][0] == 'const':
+                    valid = valid or fields_here[0]
+            return bool(ident) and bool(valid) and ident != valid
         for f in sorted(spec['position']):
-            okw = all(any(body.dominates(wb, obb) for wb in written.get(f, [])) for obb, _ in oks) and bool(oks)
+            okw = all(any(body.dominates(wb, obb) for wb in written.get(f, [])) or fast_path_ok(obb) for obb, _ in oks) and bool(oks)
             rep.ob('R10.2', okw, 'R10.2|%s|Start-rewrites|%s' % (body.nkey, f), 'seek(Start) rewrites %s before returning Ok' % f if okw else
                    'seek(Start) can return Ok without rewriting the position-dependent field %s: the next read continues from a stale state' % f, body.loc(tgt))
         # the inner source is repositioned
         inner_seek = [b for b in body.calls() if b.idx in arm_blocks and b.term.cmethod == 'seek' and b.term.ctrait == 'std::io::Seek' and cnorm(b.term) != norm(body.defpath)] + \
                      [b for b in body.calls() if b.idx in arm_blocks and b.term.cmethod == 'sync_inner_with_uncompressed_pos']
-        oki = bool(inner_seek) and all(any(body.dominates(b.idx, obb) for b in inner_seek) for obb, _ in oks)
+        oki = bool(inner_seek) and all(any(body.dominates(b.idx, obb) for b in inner_seek) or fast_path_ok(obb) for obb, _ in oks)
         rep.ob('R10.2', oki, 'R10.2|%s|Start-repositions-inner' % body.nkey, 'the inner reader is repositioned in the same call' if oki else 'seek(Start) does not reposition the inner reader', body.loc(tgt))
     # compression: the decompressor stored is created in the same call
     cs = prog.body('mla', "<layers::compress::CompressionLayerReader<'_, R> as std::io::Seek>::seek")
